@@ -7,10 +7,10 @@ import (
 	"sort"
 	"strconv"
 	"strings"
-	"text/template"
 
 	"github.com/robfig/soy/ast"
 	"github.com/robfig/soy/data"
+	"github.com/robfig/soy/internal/jsescape"
 	"github.com/robfig/soy/soymsg"
 )
 
@@ -174,7 +174,7 @@ func (s *state) walk(node ast.Node) {
 		s.js("null")
 	case *ast.StringNode:
 		s.js("'")
-		template.JSEscape(s.wr, []byte(node.Value))
+		jsescape.Write(s.wr, []byte(node.Value))
 		s.js("'")
 	case *ast.IntNode:
 		s.js(node.String())
@@ -211,7 +211,7 @@ func (s *state) walk(node ast.Node) {
 			}
 			first = false
 			s.js("\"")
-			template.JSEscape(s.wr, []byte(k))
+			jsescape.Write(s.wr, []byte(k))
 			s.js("\":")
 			s.walk(node.Items[k])
 		}
@@ -760,7 +760,7 @@ func (s *state) nodeFromValue(pos ast.Pos, val data.Value) ast.Node {
 func (s *state) writeRawText(text []byte) {
 	s.indent()
 	s.js(s.bufferName, " += '")
-	template.JSEscape(s.wr, text)
+	jsescape.Write(s.wr, text)
 	s.js("';\n")
 }
 
